@@ -249,4 +249,16 @@ def xtermLegacy (key : Int) (mods : Nat) (shifted : Int) (decckm : Bool) : Optio
       else some (.print [ch])
   else none
 
+/-! ## Go's `unicode` tables restricted to ASCII (what the functions return on runes < 128) -/
+
+def asciiUni : Uni where
+  isUpper r := decide (65 ≤ r ∧ r ≤ 90)
+  isLower r := decide (97 ≤ r ∧ r ≤ 122)
+  isLetter r := decide ((65 ≤ r ∧ r ≤ 90) ∨ (97 ≤ r ∧ r ≤ 122))
+  isGraphic r := decide (32 ≤ r ∧ r ≤ 126)
+  isPrint r := decide (32 ≤ r ∧ r ≤ 126)
+  toUpper r := if 97 ≤ r ∧ r ≤ 122 then r - 32 else r
+  toLower r := if 65 ≤ r ∧ r ≤ 90 then r + 32 else r
+  foldEq a b := decide (65 ≤ a ∧ a ≤ 90 ∧ b = a + 32) || decide (65 ≤ b ∧ b ≤ 90 ∧ a = b + 32)
+
 end VaxisModel.Spec.KeyEnc
